@@ -882,11 +882,13 @@ func (o *oracleRun) judgeTx(mode string, pc priceCase, st *ops.Step, pre, post *
 		}
 	}
 	// finalisation (C12 soundness)
+	judged := map[uint64]bool{}
 	for _, m := range pc.msgs {
 		f := o.feeders[m.FeederID]
-		if f == nil {
-			continue
+		if f == nil || judged[f.id] {
+			continue // one finalisation per feeder and transaction, however many messages the transaction carries
 		}
+		judged[f.id] = true
 		if storedNext(post.Raw, f.token) > storedNext(pre.Raw, f.token) {
 			o.judgeFinal(f, st, post)
 		}
